@@ -783,7 +783,7 @@ def build_pipeline_inspection(
             if key in deleted_keys:
                 # Key is being recreated after deletion
                 deleted_keys.remove(key)
-            key_origin.setdefault(key, index)
+            key_origin[key] = index
         all_created_keys.update(created_keys)
 
         # Analyze context key suppression/deletion
